@@ -262,6 +262,11 @@ theorem headUtility_ext (w : World U) (sid inj : Nat) (h : Bool) : Ext w (w.head
   repeat' split
   all_goals ext_tac
 
+theorem headUtilityWrap_ext (w : World U) (sid inj : Nat) (h : Bool) : Ext w (w.headUtilityWrap sid inj h).1 := by
+  simp only [headUtilityWrap]
+  repeat' split
+  all_goals ext_tac
+
 theorem headRank_ext (w : World U) (sid inj : Nat) (h : Bool) : Ext w (w.headRank sid inj h).1 := by
   simp only [headRank]
   repeat' split
